@@ -1011,6 +1011,7 @@ def _family_config(cuqi, cls, res, tally, cell, fam, fac, shapes, dim, dl, sc, v
     tag = "%s/%s/%s/%s" % (dl, passing, gkind, ",".join("%s=%s" % kv for kv in sorted(shapes.items())))
     if "rep" in fac:
         tag += "/" + fac["rep"]
+    kwargs["name"] = "x"
     res.state(tag + "/" + fac.get("path", ""))
     res.transitions += 1
     try:
@@ -1027,9 +1028,39 @@ def _family_config(cuqi, cls, res, tally, cell, fam, fac, shapes, dim, dl, sc, v
         res.outcomes.add("%s:dim-%s-instead-of-%s:%s" % (fam, ddim, dim, tag))
         return
     inside, outside = _fam_points(fam, eff, dim)
+    R = {"inside": inside, "outside": outside, "cache": {}, "eff": eff, "Sigma": Sigma, "dim": dim, "tag": tag}
+    if not _family_observe(res, tally, cell, fam, dict(fac, origin="direct"), d0, d, cond, R, None):
+        return
+    # provenance facet: the same distribution obtained on the other documented routes (copies, reduction of a
+    # joint distribution with 1 / 2 fixed variables at once and stepwise, member of a joint) - same observables
+    for origin, obj, offset in _provenances(cuqi, res, d0, d, cond, k, _ORIGINS_FULL, dim):
+        res.state(tag + "/" + fac.get("path", "") + "/" + origin)
+        _family_observe(res, tally, cell, fam, dict(fac, origin=origin), None, obj, {}, R, offset)
+
+
+def _family_observe(res, tally, cell, fam, fac, d0, d, cond, R, offset):
+    """Compares the whole observable set of the object ``d`` with the documented density.  origin == direct: the
+    complete point alphabet and input representations; other origins: 3 inside points + all outside points (the
+    reference values are shared).  offset: documented value of logd - logpdf (None: only constancy is demanded).
+    Returns False where the object could not be evaluated at all."""
+    eff, Sigma, dim, tag, cache = R["eff"], R["Sigma"], R["dim"], R["tag"], R["cache"]
+    origin = fac["origin"]
+    direct = origin == "direct"
+    passing = fac["pass"]
+    inside = R["inside"] if direct else R["inside"][:3]
+    outside = R["outside"]
 
     def ref(x):
-        return _ref_lognormal(eff["mean"], Sigma, x) if fam == "Lognormal" else _ref_logpdf(fam, eff, x)
+        key = ("lp", np.asarray(x, float).tobytes())
+        if key not in cache:
+            cache[key] = _ref_lognormal(eff["mean"], Sigma, x) if fam == "Lognormal" else _ref_logpdf(fam, eff, x)
+        return cache[key]
+
+    def refcdf(x):
+        key = ("cdf", np.asarray(x, float).tobytes())
+        if key not in cache:
+            cache[key] = _ref_cdf(fam, eff, x)
+        return cache[key]
     upto_const = fam == "ModifiedHalfNormal"
     lp, rf, ld = [], [], []
     for x in inside:
@@ -1037,16 +1068,19 @@ def _family_config(cuqi, cls, res, tally, cell, fam, fac, shapes, dim, dl, sc, v
         if st == "raised":
             res.refused += 1
             res.outcomes.add("%s:logpdf-refused:%s:%s" % (fam, tag, type(v).__name__))
-            return
+            return False
         if st == "shape":
             tally.fail("logpdf-shape", fac, "%s.logpdf of one point is not one number: %r" % (fam, v))
-            return
+            return False
         lp.append(v)
         rf.append(ref(x))
         st, v = _call(res, d.logd, x)
         ld.append(v if st == "ok" else np.nan)
     lp, rf, ld = np.array(lp), np.array(rf), np.array(ld)
-    res.outcomes.add("%s:%s:%.9g" % (fam, tag, lp[0]))
+    if direct:
+        res.outcomes.add("%s:%s:%.9g" % (fam, tag, lp[0]))
+    else:
+        res.outcomes.add("%s:origin=%s:offset=%s" % (fam, origin, "none" if offset is None else "nonzero" if abs(offset) > 1e-6 else "zero"))
     if res.sample is None:
         res.sample = {"configuration": fac, "x": inside[0], "logpdf": lp[0], "logd": ld[0], "reference": rf[0]}
     if upto_const:
@@ -1060,7 +1094,7 @@ def _family_config(cuqi, cls, res, tally, cell, fam, fac, shapes, dim, dl, sc, v
         tally.ok("logpdf", fac)
     else:
         tally.fail("logpdf", fac, msg, impl=lp, ref=rf, params={n: eff[n] for n in eff})
-    if not upto_const:
+    if direct and not upto_const:
         # far-tail points: the density itself under/overflows in floating point there, its logarithm does not
         for lab, x in _far_points(fam, eff, dim, Sigma):
             r = ref(x)
@@ -1082,6 +1116,17 @@ def _family_config(cuqi, cls, res, tally, cell, fam, fac, shapes, dim, dl, sc, v
             tally.ok("logd-constant", fac)
         else:
             tally.fail("logd-constant", fac, "logd - logpdf is not constant over the points", diff=ld - lp)
+        if offset is not None:
+            # reduction of a joint distribution: logd is the joint log-density as a function of the remaining
+            # variable = documented log-density + log-densities of the fixed variables at their values
+            if close(ld, lp + offset, 1e-9):
+                tally.ok("logd-offset", fac)
+            else:
+                tally.fail("logd-offset", fac, "logd - logpdf = %r for a distribution obtained by fixing the other variables of a "
+                           "joint distribution; the documented log-densities of the fixed variables sum to %r" % ((ld - lp)[0], offset))
+    elif offset is not None:
+        tally.fail("logd-offset", fac, "logd of a distribution obtained by fixing the other variables of a joint distribution "
+                   "is not a finite number where logpdf is: %r" % ld[:3].tolist())
     if good and cond:
         st, v = _call(res, d0.logd, **dict(cond, x=inside[0]))
         if st == "ok":
@@ -1092,15 +1137,23 @@ def _family_config(cuqi, cls, res, tally, cell, fam, fac, shapes, dim, dl, sc, v
         else:
             res.outcomes.add("%s:logd-conditional-%s" % (fam, st))
     if good and not upto_const:      # functions of logpdf: only examined where logpdf itself is right
-        st, v = _call(res, d.pdf, inside[0])
-        if st == "ok":
-            e = math.exp(rf[0])
-            if close(v, e, 1e-9, atol=1e-9 * max(e, 1e-300)):
-                tally.ok("pdf", fac)
-            else:
-                tally.fail("pdf", fac, "pdf %r != exp(documented log-density) %r" % (v, e))
-        alts = [("x-list", inside[1].tolist())]
-        if dim == 1:
+        bad = None
+        for i, x in enumerate(inside):
+            st, v = _call(res, d.pdf, x)
+            if st != "ok":
+                res.outcomes.add("%s:pdf-%s" % (fam, st))
+                bad = "skip"
+                break
+            e = _safe_exp(rf[i])
+            if not close(v, e, 1e-9, atol=1e-9 * max(e, 1e-300)):
+                bad = "pdf(%s) = %r != exp(documented log-density) %r" % (x.tolist(), v, e)
+                break
+        if bad is None:
+            tally.ok("pdf", fac)
+        elif bad != "skip":
+            tally.fail("pdf", fac, bad)
+        alts = [("x-list", inside[1].tolist())] if direct else []
+        if dim == 1 and direct:
             alts += [("x-float", float(inside[1][0]))]
         for lab, xa in alts:
             st, v = _call(res, d.logpdf, xa)
@@ -1121,8 +1174,15 @@ def _family_config(cuqi, cls, res, tally, cell, fam, fac, shapes, dim, dl, sc, v
                     tally.ok("support", f2)
                 else:
                     tally.fail("support", f2, "logpdf = %r at a point %s the support (x=%s)" % (v, side, x.tolist()))
+                if not direct:
+                    st, v = _call(res, d.pdf, x)
+                    if st == "ok":
+                        if v == 0.0:
+                            tally.ok("pdf-support", f2)
+                        else:
+                            tally.fail("pdf-support", f2, "pdf = %r at a point %s the support (x=%s)" % (v, side, x.tolist()))
     # cdf
-    if hasattr(d, "cdf") and _ref_cdf(fam, eff, inside[0]) is not None:
+    if hasattr(d, "cdf") and refcdf(inside[0]) is not None:
         bad = None
         for x in inside:
             st, v = _call(res, d.cdf, x)
@@ -1130,7 +1190,7 @@ def _family_config(cuqi, cls, res, tally, cell, fam, fac, shapes, dim, dl, sc, v
                 res.outcomes.add("%s:cdf-%s" % (fam, st))
                 bad = "skip"
                 break
-            r = _ref_cdf(fam, eff, x)
+            r = refcdf(x)
             if not close(v, r, 1e-9, atol=1e-10):
                 bad = "cdf(%s) = %r, product of the marginal integrals of the documented density = %r" % (x.tolist(), v, r)
                 break
@@ -1141,19 +1201,21 @@ def _family_config(cuqi, cls, res, tally, cell, fam, fac, shapes, dim, dl, sc, v
         for side, x in outside:
             st, v = _call(res, d.cdf, x)
             if st == "ok":
-                r = _ref_cdf(fam, eff, x)
+                r = refcdf(x)
                 f2 = dict(fac, side=side)
                 if close(v, r, 1e-9, atol=1e-10):
                     tally.ok("cdf-outside", f2)
                 else:
                     tally.fail("cdf-outside", f2, "cdf(%s) = %r with a coordinate %s the support; integral of the density = %r" %
                                (x.tolist(), v, side, r))
-    # 1-D: quadrature
-    if good and dim == 1 and passing in ("plain", "callable") and not upto_const and fam != "SmoothedLaplace":
-        _family_quadrature(res, tally, fac, d, fam, eff)
+    # 1-D: quadrature (other origins: the objects obtained by reducing a joint distribution at once)
+    if good and dim == 1 and passing in ("plain", "callable") and not upto_const and fam != "SmoothedLaplace" \
+            and (direct or origin in ("joint1", "joint2")):
+        _family_quadrature(res, tally, fac, d, fam, eff, light=not direct)
+    return True
 
 
-def _family_quadrature(res, tally, fac, d, fam, eff):
+def _family_quadrature(res, tally, fac, d, fam, eff, light=False):
     lo, hi, ctr, sc = _support(fam, eff, 1)
     lo, hi, ctr, sc = float(lo[0]), float(hi[0]), float(ctr[0]), float(sc[0])
     if np.isfinite(lo) and np.isfinite(hi):
@@ -1168,6 +1230,20 @@ def _family_quadrature(res, tally, fac, d, fam, eff):
     # integrate over the support only; the vanishing outside is decided by the support clause
     a = lo + 1e-300 if lo == 0 else (np.nextafter(lo, INF) if np.isfinite(lo) else lo)
     b = np.nextafter(hi, -INF) if np.isfinite(hi) else hi
+    # the density the object itself reports (pdf) integrates to one
+    try:
+        total, err, n = _quad_total(lambda t: _val(d.pdf(np.array([t]))), a, b, grid)
+    except Exception as e:
+        res.refused += 1
+        res.outcomes.add("%s:pdf-quad-refused:%s" % (fam, type(e).__name__))
+    else:
+        res.transitions += n
+        if abs(total - 1.0) <= 1e-7 + 10 * err:
+            tally.ok("pdf-normalisation", fac)
+        else:
+            tally.fail("pdf-normalisation", fac, "pdf integrates to %r over the support (quadrature error %.1e)" % (total, err))
+    if light:
+        return
     try:
         total, err, n = _quad_total(pdf, a, b, grid)
     except Exception as e:
